@@ -381,11 +381,11 @@ func init() {
 		Assumptions: []string{"effective environment = last occurrence wins (exec semantics)", "values without single quotes / newlines (they are YAML-quoted in the file)"},
 		Gen: func(seed int64, tier string) []fw.Case {
 			var cs []fw.Case
-			for i := 0; i < tierN(tier, 2500, 30000); i++ {
+			for i := 0; i < tierN(tier, 10000, 120000); i++ {
 				s := fw.SubSeed(seed, i)
 				cs = append(cs, fw.MkCase("C17", "load-expansion", s, genEvLoad(fw.Rand(s))))
 			}
-			for i := 0; i < tierN(tier, 1500, 20000); i++ {
+			for i := 0; i < tierN(tier, 6000, 80000); i++ {
 				s := fw.SubSeed(seed, 100000+i)
 				cs = append(cs, fw.MkCase("C17", "launch-env", s, genEvLaunch(fw.Rand(s), false)))
 			}
